@@ -91,7 +91,22 @@ VARIANTS = [
     ('ugrid topology_dimension missing', 'ugrid', {}, [_drop_attr('mesh', 'topology_dimension')], {}),
     ('ugrid topology_dimension "2" (string)', 'ugrid', {}, [_set_attr('mesh', 'topology_dimension', '2')], {}),
     ('nothing recognisable', 'cf1d', {}, [_drop_attr('lat', 'units'), _drop_attr('lon', 'units')], {}),
+    # a tie between two entry-point conventions: a SHOC standard file that also carries ems_version and dimensions j, i
+    ('shoc standard that also looks like shoc simple (tie)', 'shoc_standard', {}, [_global('ems_version', 'v1.2'), '_add_ji'],
+     {'ShocStandard': HIGH, 'ShocSimple': HIGH, 'CFGrid2D': LOW}),
 ]
+
+
+def _add_ji(ds):
+    from pyvc.api import sym_array
+    n = list(ds._sizes().values())[0]
+    c = core.ctx()
+    add_var(ds, 'flag', ('j', 'i'), sym_array(c, 'flag', (n, n), 'V'))
+
+
+for _k, _v in enumerate(VARIANTS):
+    VARIANTS[_k] = (_v[0], _v[1], _v[2], [(_add_ji if m == '_add_ji' else m) for m in _v[3]], _v[4])
+TIE_VARIANT = len(VARIANTS) - 1
 BUILDERS = {'cf1d': inputs.cf1d, 'cf2d': inputs.cf2d, 'shoc_simple': inputs.shoc_simple, 'shoc_standard': inputs.shoc_standard,
             'ugrid': inputs.ugrid}
 
@@ -110,6 +125,10 @@ def scenarios(tier):
             for reg in (('A', 'B'), ('B', 'A')):
                 out.append({'name': f'registration[{VARIANTS[vi][0]}, toy A={a}, toy B={b}, registered {reg}]', 'fn': 'scn_registered',
                             'kwargs': {'vi': vi, 'a': a, 'b': b, 'reg': reg}})
+    for vi in base_variants + [TIE_VARIANT]:
+        for name in ENTRY_ORDER:
+            out.append({'name': f'registration of an entry-point class by hand[{VARIANTS[vi][0]}, register {name}]', 'fn': 'scn_register_known',
+                        'kwargs': {'vi': vi, 'name': name}})
     ops = ['access', 'bind_new', 'copy', 'access_copy', 'bind_again']
     max_len = 3 if tier == 'quick' else 4
     for n in range(1, max_len + 1):
@@ -183,6 +202,25 @@ def scn_guess(c, vi, order):
     c.check(f'the matching convention with the highest specificity handles the dataset: {want}', got == want, note=f'got {got}')
     r2 = expect_ok(c, 'second detection returns', lambda: call(it, g, ds))
     c.check('detection is repeatable on the same dataset', r2 is r)
+
+
+def scn_register_known(c, vi, name):
+    """a class that is already known through its entry point can still be registered by hand, and then wins ties like any registered class"""
+    it = new_interp()
+    ds, expected = _dataset(c, vi)
+    c.entry_points = _entry_points(it)
+    register = fn(it, 'emsarray.conventions._registry', 'register_convention')
+    g = fn(it, 'emsarray.conventions._registry', 'get_dataset_convention')
+    before = expect_ok(c, 'detection before registration', lambda: call(it, g, ds))
+    want0 = _expected_winner(expected, 'declared')
+    c.check(f'before: entry-point order decides ties: {want0}', (before.name if isinstance(before, ClassInfo) else None) == want0)
+    klass = cls(it, *CLASSES[name])
+    r = expect_ok(c, 'register_convention returns the class', lambda: call(it, register, klass))
+    c.check('register_convention returns its argument', r is klass)
+    after = expect_ok(c, 'detection after registration', lambda: call(it, g, ds))
+    want = _expected_winner(expected, 'declared', registered=[name])
+    got = after.name if isinstance(after, ClassInfo) else None
+    c.check(f'after registering {name} by hand: highest specificity wins, the registered class wins ties: {want}', got == want, note=f'got {got}')
 
 
 TOY_SRC = '''
@@ -289,7 +327,7 @@ def scn_history(c, seq):
 
 def scn_refuse(c):
     it = new_interp()
-    ds, expected = _dataset(c, len(VARIANTS) - 1)
+    ds, expected = _dataset(c, [k for k, v in enumerate(VARIANTS) if v[0] == 'nothing recognisable'][0])
     c.entry_points = _entry_points(it)
     _accessors(c, it)
     expect_raise(c, 'a dataset nothing matches is refused with RuntimeError', lambda: it.getattr(ds, 'ems'), RuntimeError)
